@@ -50,6 +50,7 @@ def parse_params(s):
 
 def parse_header(path, rel):
     raw = open(path).read()
+    raw = re.sub(r'\\\r?\n', ' ', raw)          # join backslash-continued lines (multi-line #if / #define)
     text = strip_comments(raw)
     info = {'path': rel, 'macros': {}, 'enums': {}, 'enum_order': [], 'protos': [], 'aliases': {},
             'structs': []}
